@@ -416,7 +416,11 @@ func treeOne(c *Ctx, rng *lab.RNG, cs treeCase) {
 				dec++
 			}
 			op := rng.Intn(1000)
-			if cs.Fill && !m.sawBoundary && i < 100000 && op >= 940 && op < 970 {
+			fillHi := 970
+			if !cs.Persist {
+				fillHi = 990 // in memory: also no Reset and no full iteration while filling, or the tree never outgrows its first buffer
+			}
+			if cs.Fill && !m.sawBoundary && i < 100000 && op >= 940 && op < fillHi {
 				op = 0
 			}
 			switch {
@@ -538,6 +542,9 @@ func treeOne(c *Ctx, rng *lab.RNG, cs treeCase) {
 				if !m.checkKey(k, "probe") {
 					return
 				}
+			}
+			if i%5000 == 4999 {
+				r.ObsMax("max_tree_bytes", int64(m.t.Stats().Bytes))
 			}
 			if i%fullEvery == fullEvery-1 && (i < 20000 || rng.Chance(0.3)) {
 				if !m.fullCheck("periodic") {
